@@ -55,7 +55,7 @@ func Catalogue(tier string) []*DSystem {
 		{name: "res-ttl", Kind: "res", Cap: 4, NK: 2, NC: 1, NUp: 1, Min: 2, Max: 4, Neg: 3, Pairs: [][2]int{{1, 1}, {2, 6}}, Scripts: []string{"ok", "nx"}, KeyCheck: true},
 		{name: "res-neg", Kind: "res", Cap: 4, NK: 1, NC: 1, NUp: 1, Min: 1, Max: 3, Neg: 2, Pairs: [][2]int{{1, 3}}, Scripts: []string{"ok", "nx", "nodata", "sf", "junk"}, KeyCheck: true},
 		{name: "res-ovr", Kind: "res", Cap: 4, NK: 2, NC: 2, NUp: 1, Min: 1, Max: 3, Neg: 2, Types: []int{tA, tSPF}, Pairs: [][2]int{{1, 2}}, Scripts: []string{"ok"}, Wall: true, Rule: true, KeyCheck: true},
-		{name: "res-rr", Kind: "res", Cap: 2, NK: 1, NC: 1, NUp: 3, Min: 1, Max: 2, Neg: 1, Pairs: [][2]int{{1, 1}}, Scripts: []string{"ok", "sf", "junk"}, KeyCheck: true},
+		{name: "res-rr", Kind: "res", Cap: 2, NK: 1, NC: 1, NUp: 3, Min: 1, Max: 2, Neg: 1, Pairs: [][2]int{{1, 1}}, Scripts: []string{"ok", "sf", "junk"}, FFwd: true, KeyCheck: true},
 		{name: "res-cap", Kind: "res", Cap: 2, NK: 3, NC: 1, NUp: 2, Min: 1, Max: 3, Neg: 2, Pairs: [][2]int{{1, 2}}, Scripts: []string{"ok"}, KeyCheck: true},
 		{name: "res-loop", Kind: "res", Cap: 3, NK: 2, NC: 1, NUp: 1, Min: 1, Max: 3, Neg: 2, Pairs: [][2]int{{1, 1}, {2, 3}}, Scripts: []string{"ok", "nx"}, Loop: true, KeyCheck: true},
 		// systems in which the known findings live
@@ -65,9 +65,9 @@ func Catalogue(tier string) []*DSystem {
 	}
 	if tier == "thorough" {
 		l = append(l,
-			&DSystem{name: "cache-big", Kind: "cache", Cap: 3, NK: 4, Min: 1, Max: 3, Neg: 2, Pairs: [][2]int{{1, 1}, {2, 4}}, NegOp: true, DelOps: true, KeyCheck: true},
+			&DSystem{name: "cache-big", Kind: "cache", Cap: 3, NK: 4, Min: 1, Max: 2, Neg: 1, Pairs: [][2]int{{1, 1}, {2, 3}}, DelOps: true, KeyCheck: true},
 			&DSystem{name: "res-ttl3", Kind: "res", Cap: 4, NK: 2, NC: 1, NUp: 2, Min: 2, Max: 5, Neg: 3, Pairs: [][2]int{{1, 1}, {2, 4}, {3, 7}}, Scripts: []string{"ok", "nx", "nodata"}, KeyCheck: true},
-			&DSystem{name: "res-ovr-loop", Kind: "res", Cap: 2, NK: 3, NC: 2, NUp: 2, Min: 1, Max: 2, Neg: 1, Types: []int{tA, tAAAA, tSPF}, Pairs: [][2]int{{1, 2}}, Scripts: []string{"ok", "nx"}, Wall: true, Rule: true, Loop: true, KeyCheck: true},
+			&DSystem{name: "res-ovr-loop", Kind: "res", Cap: 2, NK: 3, NC: 2, NUp: 2, Min: 1, Max: 2, Neg: 1, Types: []int{tA, tAAAA, tSPF}, Pairs: [][2]int{{1, 2}}, Scripts: []string{"ok"}, Wall: true, Rule: true, Loop: true, KeyCheck: true},
 			&DSystem{name: "res-hostile2", Kind: "res", Cap: 2, NK: 2, NC: 1, NUp: 2, Min: 1, Max: 3, Neg: 2, Pairs: [][2]int{{1, 2}, {2, 1}}, Scripts: []string{"ok", "spoofid", "spoofq", "nxc"}, KeyCheck: true},
 		)
 	}
